@@ -17718,7 +17718,8 @@ class HFSM2_EMPTY_BASES InstanceT<
 							>
 						  , TApex
 						> final
-	: public			RC_<
+	: public			RNGT<TUtility>
+	, public			RC_<
 							G_<
 								NFeatureTag
 							  , TContext
@@ -17733,7 +17734,6 @@ class HFSM2_EMPTY_BASES InstanceT<
 							>
 						  , TApex
 						>
-	, public			RNGT<TUtility>
 {
 	using Base =		RC_<
 							G_<
@@ -17763,10 +17763,10 @@ public:
 public:
 	HFSM2_CONSTEXPR(14)	explicit InstanceT(Context& context
 										 HFSM2_IF_LOG_INTERFACE(, Logger* const logger = nullptr))	noexcept
-		: Base{context
+		: RNGT<TUtility>{0}
+		, Base{context
 			 , static_cast<RNGT<TUtility>&>(*this)
 			 HFSM2_IF_LOG_INTERFACE(, logger)}
-		, RNGT<TUtility>{0}
 	{}
 };
 
@@ -17802,7 +17802,8 @@ class HFSM2_EMPTY_BASES InstanceT<
 							>
 						  , TApex
 						> final
-	: public			RC_<
+	: public			RNGT<TUtility>
+	, public RC_<
 							G_<
 								NFeatureTag
 							  , EmptyContext
@@ -17817,7 +17818,6 @@ class HFSM2_EMPTY_BASES InstanceT<
 							>
 						  , TApex
 						>
-	, public RNGT<TUtility>
 {
 	using Base =		RC_<
 							G_<
@@ -17844,9 +17844,9 @@ public:
 
 public:
 	HFSM2_CONSTEXPR(14)	explicit InstanceT(HFSM2_IF_LOG_INTERFACE(Logger* const logger = nullptr))	noexcept
-		: Base{static_cast<RNGT<TUtility>&>(*this)
+		: RNGT<TUtility>{0}
+		, Base{static_cast<RNGT<TUtility>&>(*this)
 			 HFSM2_IF_LOG_INTERFACE(, logger)}
-		, RNGT<TUtility>{0}
 	{}
 };
 
